@@ -1,19 +1,146 @@
 """C12 - Validation treats its inputs as read-only."""
 import json
+import random
 
 from .. import common as C
+from .. import specgen as G
+from .. import valuegen as V
 from . import c08
 
 LEVEL = "proof"
 N = {"quick": 700, "thorough": 30000}
+NDOC = {"quick": (70, 60), "thorough": (400, 3000)}     # (fixtures, grammar documents)
+
+
+def refs_of(x, out):
+    if isinstance(x, dict):
+        r = x.get("$ref")
+        if isinstance(r, str):
+            out.add(r)
+        for v in x.values():
+            refs_of(v, out)
+    elif isinstance(x, list):
+        for v in x:
+            refs_of(v, out)
+
+
+def self_referential(raw):
+    """some definition reaches itself through references"""
+    defs = raw.get("definitions") if isinstance(raw, dict) else None
+    if not isinstance(defs, dict):
+        return False
+    edges = {}
+    for k, v in defs.items():
+        out = set()
+        refs_of(v, out)
+        edges[k] = {r.rsplit("/", 1)[-1] for r in out if r.startswith("#/definitions/")} | ({k} if "#" in out else set())
+    for k in edges:
+        seen, todo = set(), list(edges[k])
+        while todo:
+            n = todo.pop()
+            if n == k:
+                return True
+            if n in seen:
+                continue
+            seen.add(n)
+            todo += list(edges.get(n, ()))
+    return False
+
+
+def diff_paths(a, b, p=""):
+    if type(a) != type(b):
+        return [p]
+    if isinstance(a, dict):
+        out = []
+        for k in sorted(set(a) | set(b)):
+            out += [p + "/" + k] if (k not in a or k not in b) else diff_paths(a[k], b[k], p + "/" + k)
+        return out
+    if isinstance(a, list):
+        if len(a) != len(b):
+            return [p]
+        return [d for i, (x, y) in enumerate(zip(a, b)) for d in diff_paths(x, y, p + "/%d" % i)]
+    return [] if a == b else [p]
+
+
+def only_expansions(before, paths):
+    """every change lies inside a node under /definitions that was a $ref before the call"""
+    for p in paths:
+        parts = [x for x in p.split("/") if x != ""]
+        if not parts or parts[0] != "definitions":
+            return False
+        node, ok = before, False
+        for x in parts:
+            if isinstance(node, dict) and "$ref" in node:
+                ok = True
+                break
+            if isinstance(node, dict) and x in node:
+                node = node[x]
+            elif isinstance(node, list) and x.isdigit() and int(x) < len(node):
+                node = node[int(x)]
+            else:
+                break
+        if not ok and not (isinstance(node, dict) and "$ref" in node):
+            return False
+    return True
+
+
+def doc_cases(chk):
+    nf, ng = NDOC[chk.tier]
+    rng = random.Random(chk.seed + 1200)
+    files = G.fixture_files()
+    rng.shuffle(files)
+    cases = [{"file": f, "origin": "fixture " + f} for f in files[:nf]]
+    sg = G.SpecGen(rng)
+    for i in range(ng):
+        d = sg.spec()
+        V.decorate(d, rng, density=rng.choice([0.2, 0.5]), bad_share=rng.choice([0.0, 0.0, 0.1]))
+        cases.append({"doc": d, "origin": "grammar + shaped schemas + defaults and examples"})
+    for i, c in enumerate(cases):
+        c["id"] = i
+    return cases
+
+
+def run_docs(chk, binp, cases):
+    recs = C.harness_parallel(binp, "spec", [{k: v for k, v in c.items() if k in ("id", "doc", "file")} for c in cases], shards=14)
+    byid = {c["id"]: c for c in cases}
+    st = {"documents": len(recs), "accepted": 0, "accepted_without_self_reference": 0, "raw_compared": 0, "parsed_changed_but_rejected_or_recursive": 0}
+    for r in recs:
+        c = byid[r["id"]]
+        run = (r.get("runs") or {}).get("cont=true,strict=true")
+        if not run or run["outcome"] != "ok" or "raw_untouched" not in r:
+            continue
+        st["raw_compared"] += 1
+        case = {k: v for k, v in c.items() if k != "id"}
+        if not r["raw_untouched"]:
+            chk.violation("spec validation changed the bytes of the loaded document", {"case": case, "level": "document"})
+            continue
+        if run["valid"]:
+            st["accepted"] += 1
+        recursive = self_referential(r.get("raw"))
+        if r.get("spec_untouched"):
+            if run["valid"] and not recursive:
+                st["accepted_without_self_reference"] += 1
+            continue
+        if not run["valid"] or recursive:
+            st["parsed_changed_but_rejected_or_recursive"] += 1
+            continue
+        st["accepted_without_self_reference"] += 1
+        changed = diff_paths(r["spec_before"], r["spec_after"])
+        chk.finding_or_violation("spec-refs-expanded-in-place" if only_expansions(r["spec_before"], changed) else None,
+                                 "validating an accepted document without self-referential definitions changed the parsed specification at "
+                                 + ", ".join(diff_paths(r["spec_before"], r["spec_after"])[:4]),
+                                 {"case": case, "level": "document", "changed": diff_paths(r["spec_before"], r["spec_after"])[:20]})
+    return st
 
 
 def run(chk):
     pf_ok, pf = C.proof_obligations("C12")
     binp = C.build_harness("verif")
     c08.run_cases(chk, binp, c08.gen(binp, chk.seed + 12, N[chk.tier]), pf_ok, pf, pid="C12")
-    chk.assumptions = ["document-level snapshots (doc.Raw() bytes, expanded doc.Spec()) are taken by the spec-level checks",
-                       "partial: a Go statement writing through an alias the model does not represent is caught only by the snapshots"]
+    chk.coverage["documents"] = run_docs(chk, binp, doc_cases(chk))
+    chk.coverage["rule"] += ("; document level: fixtures and grammar documents (shaped schemas, mostly valid defaults and examples) through "
+                             "SpecValidator.Validate with doc.Raw() bytes and the JSON form of doc.Spec() compared before and after")
+    chk.assumptions = ["partial: a Go statement writing through an alias the model does not represent is caught only by the snapshots"]
 
 
 def replay(chk, path):
@@ -22,4 +149,8 @@ def replay(chk, path):
     binp = C.build_harness("verif")
     if "case" not in payload:
         return run(chk)
+    if payload.get("level") == "document":
+        c08.run_cases(chk, binp, [], pf_ok, pf, pid="C12")
+        chk.coverage["documents"] = run_docs(chk, binp, [dict(payload["case"], id=0)])
+        return
     c08.run_cases(chk, binp, [dict(payload["case"], id=0)], pf_ok, pf, pid="C12")
